@@ -727,6 +727,9 @@ template <class Run>
 static void randomFlat(const char * variant, Rng & rng, const std::string & tier, long idx, bool junkClass, double junk) {
     FlatOpts o;
     o.S = (size_t)rng.range(1, 5); o.A = (size_t)rng.range(1, 3);
+    // now and then a wider state space (Eigen takes its packet / unrolled paths for rows of 8+ doubles) and more actions
+    bool wide = rng.coin(1, 10);
+    if (wide) { o.S = (size_t)rng.range(6, 19); o.A = (size_t)rng.range(1, 5); }
     long maxOps = tier == "thorough" ? 1500 : 200;
     o.nops = rng.coin(1, 4) ? rng.range(3, 20) : rng.range(20, maxOps);
     o.rewardMode = rng.coin(1, 6) ? 1 : (rng.coin(1, 12) ? 2 : 0);
@@ -742,7 +745,8 @@ static void randomFlat(const char * variant, Rng & rng, const std::string & tier
     o.hot = rng.coin() ? (size_t)rng.range(1, 3) : 0;
     Run fr(o, rng, variant);
     fr.run(junk);
-    std::printf("#stat flat_%s 1\n#stat S_%zu 1\n#stat ops_%s 1\n", variant, o.S, o.nops < 20 ? "lt20" : (o.nops < 200 ? "lt200" : "ge200"));
+    if (wide) std::printf("#stat flat_wide_S_6_to_19 1\n");
+    std::printf("#stat flat_%s 1\n#stat S_%zu 1\n#stat ops_%s 1\n", variant, std::min<size_t>(o.S, 6), o.nops < 20 ? "lt20" : (o.nops < 200 ? "lt200" : "ge200"));
     if (o.violatePre) std::printf("#stat stream_violating_precondition 1\n");
     if (o.rewardMode) std::printf("#stat reward_mode_%d 1\n", o.rewardMode);
 }
